@@ -726,7 +726,7 @@ def run(ctx, replay):
         return
     quick = ctx.tier == "quick"
     depth = 4 if quick else 6
-    n_valid, n_valid_chk, n_malf, n_contig = (1700, 500, 800, 250) if quick else (60000, 14000, 26000, 4000)
+    n_valid, n_valid_chk, n_malf, n_contig = (3000, 800, 1500, 400) if quick else (60000, 14000, 26000, 4000)
     stats = {}
     corpus = load_corpus()
     for mode, lines in corpus:
